@@ -305,3 +305,35 @@ func inCycleHeader(phi *ssa.Phi) bool {
 	}
 	return false
 }
+
+// holdsBlockTime: v is not the block-time call itself but a value (e.g. a field of a local state struct) every
+// origin of which is a ctx.BlockTime() call reached without any operation in between - at the point where v is read
+// the value IS the block time (the tracer discards stores that are overwritten on every path to the load).
+func holdsBlockTime(tr *Tracer, v ssa.Value) bool {
+	if v == nil || typeString(v.Type()) != tTime {
+		return false
+	}
+	if isBlockTime(v) {
+		return true
+	}
+	t2 := *tr
+	t2.Stop = append(append([]string{}, tr.Stop...), "cosmos-sdk/types.Context.BlockTime")
+	o := t2.Origins(v)
+	if os.Getenv("C4E_DEBUG2") != "" {
+		fmt.Fprintf(os.Stderr, "HOLDSBT %s: leaves=%v ops=%v trunc=%v\n", v, o.LeafList(), o.Ops, o.Truncated)
+	}
+	if o.Truncated || len(o.Leaves) == 0 {
+		return false
+	}
+	for op := range o.Ops {
+		if !strings.HasSuffix(op, "cosmos-sdk/types.Context.BlockTime") {
+			return false
+		}
+	}
+	for _, l := range o.Leaves {
+		if l.Kind != "call" || l.Path != "" || !isBlockTime(l.V) {
+			return false
+		}
+	}
+	return true
+}
